@@ -246,6 +246,21 @@ def verify_function(src, reg, qual, timeout_ms=10000, select=None, emit_smt2=Fal
         return res
     res["inlined"] = sorted(ex.inlined)
     res["callee_contracts"] = sorted(ex.used_contracts)
+    # class-local definitions (`defs`) are in force while ANY contract text is translated for this body, the clauses of
+    # callees included: a callee whose clauses mention a locally defined name would be read with this class's meaning
+    if c.defs:
+        import re as _re
+        for q in sorted(ex.used_contracts):
+            cc = reg.contracts.get(q)
+            if cc is None or q == qual:
+                continue
+            texts = list(cc.requires.values()) + list(cc.ensures.values()) + list(cc.raises.values()) + \
+                list(cc.defines_ensures.values()) + list(cc.defines_raises.values())
+            for name in c.defs:
+                if any(_re.search(r"\b%s\(" % _re.escape(name), t) for t in texts):
+                    res["status"] = "outside-subset"
+                    res["reason"] = "class-local definition of %s would also be applied to the clauses of callee %s" % (name, q)
+                    return res
     # ---- verification conditions (one SMT query per path and named obligation)
     groups = {}
     for ob in obls:
